@@ -22,7 +22,15 @@ RULE = ("pairs of document streams of lengths 1..4 (documents: empty/null docume
         "stdout parsed back as a document stream.  Direct checks on the real code: no exception other than SystemExit escapes; "
         "with status 0 the number of output documents is 1 / max(|L|,|R|) / |L|.  Correspondence: return state / exit status, "
         "number, order and content of the resulting documents equal the Lean model's (the model instantiated with C05's pairwise "
-        "merge).  distinct_nontrivial = cases with status 0 in which at least one pairwise merge changed a document.")
+        "merge).  Files that hold NO document (empty, blank lines only, comments only, BOM only; each form is parsed with the "
+        "real loader first and used as a zero-document file only when it yields no document - forms like a lone `---` that "
+        "yield one null document are used as one-null-document files): for every mode, every file count 2..4 and every "
+        "placement of zero-document files among them (first, middle, last, several; at least one file holds documents), with "
+        "document-holding files of 1..3 documents, yaml-merge main() runs on the real files; a zero-document stream "
+        "contributes no pairwise step, so state, number (1 / max length / length of the left stream), order and content of the "
+        "output must equal the model's on the file list without the zero-document files (MATRIX_MERGE with a zero-document "
+        "FIRST file is run for crashes only: the statement does not say which stream is the left one then; file lists "
+        "without any document are not run).  distinct_nontrivial = cases with status 0 in which at least one pairwise merge changed a document.")
 
 MODES = ["condense_all", "merge_across", "matrix_merge"]
 
@@ -117,15 +125,20 @@ def impl_docs(mode, L, R, cfg, how, limit_s=10.0):
         signal.signal(signal.SIGVTALRM, old)
 
 
-def impl_main(mode, files, cfg, limit_s=20.0):
-    """yaml-merge main() in-process on real files -> {"state": exit status, "docs": stdout parsed}."""
+def impl_main(mode, files, cfg, limit_s=20.0, texts=None):
+    """yaml-merge main() in-process on real files -> {"state": exit status, "docs": stdout parsed}.
+    `texts[i]`, when a string, is written verbatim as file i (zero-document / lone-marker files)."""
     from yamlpath.commands import yaml_merge
     from yamlpath.common import Parsers
     d = mg._tmpdir()
     paths = []
     for i, docs in enumerate(files):
         p = os.path.join(d, "f%d-%d.yaml" % (os.getpid(), i))
-        dump_stream(docs, p)
+        if texts and texts[i] is not None:
+            with open(p, "w", encoding="utf-8") as fh:
+                fh.write(texts[i])
+        else:
+            dump_stream(docs, p)
         paths.append(p)
     argv = ["yaml-merge", "--nostdin", "--quiet", "-D", "yaml", "-M", mode]
     for n, opt in (("hash", "-H"), ("array", "-A"), ("aoh", "-O"), ("set", "-E")):
@@ -225,6 +238,71 @@ def rules_in_model(c):
     return all(addr_is_plain(d, a) for d in docs for a in addrs)
 
 
+# candidate texts of files without a document; what each really holds is decided by the real loader
+BLANK_TEXTS = ["", "\n", "  \n\n", "# only a comment\n", "# first\n\n  # second\n", "\ufeff", "# no newline at the end",
+               "---\n", "---", "--- # comment\n", "---\n...\n", "%YAML 1.2\n---\n", "# c\n---\n# d\n"]
+_BLANKS = None
+
+
+def blank_forms():
+    """(texts that parse to zero documents, texts that parse to exactly one null document)"""
+    global _BLANKS
+    if _BLANKS is None:
+        from yamlpath.common import Parsers
+        zero, null = [], []
+        for t in BLANK_TEXTS:
+            try:
+                docs = list(Parsers.get_yaml_editor().load_all(t))
+            except Exception:  # noqa
+                continue
+            if docs == []:
+                zero.append(t)
+            elif docs == [None]:
+                null.append(t)
+        _BLANKS = (zero, null)
+    return _BLANKS
+
+
+def empty_file_cases(rng, reps):
+    """every mode x file count 2..4 x every placement of zero-document files (not all of them) x `reps` fillings"""
+    zero, null = blank_forms()
+    cases = []
+    if not zero:
+        return cases
+    for mode in MODES:
+        for nf in (2, 3, 4):
+            for mask in range(1, 2 ** nf - 1):                # bit i set: file i holds no document
+                for rep in range(reps):
+                    files, texts = [], []
+                    cfg = mg.rand_policy(rng, mg.S(1), with_rules=False)
+                    first_full = True
+                    for i in range(nf):
+                        if mask >> i & 1:
+                            files.append([])
+                            texts.append(zero[rng.randrange(len(zero))])
+                            continue
+                        if null and rng.random() < 0.12:
+                            files.append([mg.S(None)])
+                            texts.append(null[rng.randrange(len(null))])
+                            first_full = False
+                            continue
+                        # the left stream has 2-3 documents in most cases: that is where folding shows
+                        n = rng.choice([2, 3, 3, 1] if first_full else [1, 1, 2, 3])
+                        first_full = False
+                        for _try in range(6):
+                            docs = rand_streams(rng, n, 1)[0]
+                            if file_safe(docs):
+                                break
+                        else:
+                            docs = [mg.M(("k%d" % j, mg.S(j))) for j in range(n)]
+                        files.append(docs)
+                        texts.append(None)
+                    full = [f for f in files if f]
+                    cases.append({"mode": mode, "lhs": full[0], "rhs": full[1] if len(full) > 1 else [], "cfg": cfg,
+                                  "how": "main-empty", "files": files, "texts": texts})
+    return cases
+
+
 def expected_count(mode, nl, nr):
     return 1 if mode == "condense_all" else (max(nl, nr) if mode == "merge_across" else nl)
 
@@ -234,6 +312,10 @@ def judge(case, im, mo):
     mode, L, R, cfg, how = case["mode"], case["lhs"], case["rhs"], case["cfg"], case["how"]
     desc = "%s of %s with %s under %s (%s)" % (mode, [c05._show(d) for d in L], [c05._show(d) for d in R],
                                                json.dumps(cfg, sort_keys=True), how)
+    if how == "main-empty":
+        desc = "%s of the files %s under %s (yaml-merge main)" % (mode, [
+            ("<no document: %r>" % t) if not f else ([c05._show(d) for d in f] if t is None else "<%r>" % t)
+            for f, t in zip(case["files"], case["texts"])], json.dumps(cfg, sort_keys=True))
     out = []
     if "oom" in im or (mo is not None and mo.get("err") == "outOfModel"):
         return None
@@ -252,7 +334,19 @@ def judge(case, im, mo):
             out.append(("disagreement", "uncaught:%s-vs-%s" % (im.get("err"), mo.get("err")), "%s: impl %s, model %s" % (
                 desc, im.get("err", "state %s" % im.get("state")), mo.get("err", "state %s" % mo.get("state")))))
         return out
-    if im["state"] == 0 and how != "main-multi":
+    if how == "main-empty":
+        if mode == "matrix_merge" and not case["files"][0]:
+            return "matrix-empty-first"
+        full = [f for f in case["files"] if f]
+        if im["state"] == 0:
+            n = len(im["docs"])
+            want_n = 1 if mode == "condense_all" else (max(len(f) for f in full) if mode == "merge_across" else len(full[0]))
+            if n != want_n:
+                out.append(("violation", "count:%s:zero-document-file" % mode,
+                            "%s left %d documents; the mode and the stream lengths %s define %d" % (
+                                desc, n, [len(f) for f in case["files"]], want_n)))
+                return out
+    elif im["state"] == 0 and how != "main-multi":
         n = len(im["docs"])
         want_n = expected_count(mode, len(L), len(R))
         if n != want_n:
@@ -298,7 +392,9 @@ def run_cases(cases):
         except codec.OutOfModel:
             stats["oom"] += 1
             continue
-        if c["how"].startswith("main"):
+        if c["how"] == "main-empty":
+            reqs.append({"op": "C18.main", "mode": c["mode"], "files": [f for f in c["files"] if f], "cfg": mc})
+        elif c["how"].startswith("main"):
             reqs.append({"op": "C18.main", "mode": c["mode"], "files": c["files"], "cfg": mc})
         else:
             reqs.append({"op": "C18.docs", "mode": c["mode"], "lhs": c["lhs"], "rhs": c["rhs"], "cfg": mc})
@@ -312,11 +408,13 @@ def run_cases(cases):
     nontrivial = 0
     for c, mo in zip(prepared, model):
         if c["how"].startswith("main"):
-            im = impl_main(c["mode"], c["files"], c["cfg"])
+            im = impl_main(c["mode"], c["files"], c["cfg"], texts=c.get("texts"))
         else:
             im = impl_docs(c["mode"], c["lhs"], c["rhs"], c["cfg"], c["how"])
         stats["n"] += 1
         key = "case:%s:%dx%d:%s" % (c["mode"], len(c["lhs"]), len(c["rhs"]), "main" if c["how"].startswith("main") else c["how"])
+        if c["how"] == "main-empty":
+            key = "case:%s:zero-document-files-at:%s" % (c["mode"], "".join("0" if not f else "d" for f in c["files"]))
         hist[key] = hist.get(key, 0) + 1
         st = "state:%s" % (im.get("state") if "state" in im else im.get("err", "oom"))
         hist[st] = hist.get(st, 0) + 1
@@ -328,6 +426,9 @@ def run_cases(cases):
             stats["oom"] += 1
         if j is None:
             continue
+        if j == "matrix-empty-first":
+            hist["matrix_zero_document_first_file_crash_check_only"] = hist.get("matrix_zero_document_first_file_crash_check_only", 0) + 1
+            continue
         if j == "after-failure":
             hist["state_differs_after_first_failure"] = hist.get("state_differs_after_first_failure", 0) + 1
             continue
@@ -335,6 +436,8 @@ def run_cases(cases):
             nontrivial += 1
             if not samples and len(c["lhs"]) > 1 and len(c["rhs"]) > 1:
                 samples.append({"case": {k: c[k] for k in ("mode", "lhs", "rhs", "cfg", "how")}, "impl": im, "model": mo})
+            if c["how"] == "main-empty" and len(samples) < 2 and len(c["lhs"]) > 1 and not c["files"][-1]:
+                samples.append({"case": {k: c[k] for k in ("mode", "files", "texts", "cfg", "how")}, "impl": im, "model": mo})
         for kind_, sig, what in j:
             if len(findings) < 40:
                 findings.append((kind_, sig, what, dict(c, impl=im, model=mo)))
@@ -375,6 +478,8 @@ def _job(job):
                 how = "file" if file_safe(R) else "mem"
             cases.append({"mode": mode, "lhs": L, "rhs": R, "cfg": cfg, "how": how, "files": files})
         return run_cases(cases)
+    if tag == "EMPTY":
+        return run_cases(empty_file_cases(random.Random(job[1]), job[2]))
     return run_cases(job[1])
 
 
@@ -400,7 +505,8 @@ def run(chk: core.Check):
         if "mode" not in c:
             print("replay: nothing to run for", json.dumps(c)[:300])
             return chk
-        case = {"mode": c["mode"], "lhs": c["lhs"], "rhs": c["rhs"], "cfg": c.get("cfg", {}), "how": c.get("how", "mem"), "files": c.get("files", [])}
+        case = {"mode": c["mode"], "lhs": c["lhs"], "rhs": c["rhs"], "cfg": c.get("cfg", {}), "how": c.get("how", "mem"), "files": c.get("files", []),
+                "texts": c.get("texts")}
         results = [run_cases([case])]
         for f in results[0][1]:
             print("replay:", f[1], "::", f[2][:600])
@@ -415,6 +521,9 @@ def run(chk: core.Check):
         per = 480
         p_file, p_main = (0.05, 0.04) if tier == "quick" else (0.05, 0.04)
         jobs += [("RAND", chk.seed * 7919 + i, per, p_file, p_main) for i in range(n // per)]
+        n_empty = 4 if tier == "quick" else 12
+        jobs += [("EMPTY", chk.seed * 104729 + 17 + i, 2) for i in range(n_empty)]
+        chk.extra_cov["zero_document_file_runs"] = n_empty * 2 * 3 * (2 + 6 + 14)
         chk.extra_cov["stream_pairs"] = n
         chk.extra_cov["coverage_note"] = "every (|L|,|R|) in 1..4 x 1..4 and every mode occurs in each block of 48 consecutive cases"
         results = core.pmap(_job, jobs)
